@@ -381,3 +381,6 @@ M("C16", "block-comment-loop-inverted", SST, "while not s.accept_prefix(\"*/\"):
 M("C01", "backtrack-without-restore", PST, "            p.pos = saved_position\n            operand = parse_expression(p)\n", "            operand = parse_expression(p)\n", "C01.R5")
 M("C12", "defines-guard-inverted", "a816/cli.py", "    if args.defines:\n", "    if not args.defines:\n", "C12.R3")
 M("C16", "include-source-never-read", PST, "            source = fd.read()\n", "            pass\n", "C16.RU")
+M("C13", "ips-open-arguments-swapped", NODES, 'with open(self.ips_file_path, "rb") as ips_file:', 'with open("rb", self.ips_file_path) as ips_file:', "C13.R2")
+M("C07", "binary-node-resolver-not-stored", NODES, "        self.symbol_base = path.replace(\"/\", \"_\").replace(\".\", \"_\")\n        self.resolver = resolver\n", "        self.symbol_base = path.replace(\"/\", \"_\").replace(\".\", \"_\")\n", "C07.RU")
+M("C12", "cli-arguments-never-parsed", "a816/cli.py", "    args = parser.parse_args()\n", "", "C12.RU")
